@@ -5,6 +5,7 @@ from hypothesis import strategies as st
 
 from ..model import ast as A, render, refsem, strategies as S
 from ..model.numeric import OutOfDomain
+from ..model import numeric as N
 from ..run import Outcome, Violation, exc_bucket, HarnessError
 from ..valuecmp import IllConditioned
 
@@ -124,6 +125,23 @@ def _check_symbolic_domain(ref):
                     first = first or e
             if not ok:
                 raise first
+            # a symbol on which the value does not depend "cancels identically" (excluded by C01/C04/C08)
+            pts = sym_points(rs.syms)
+            for sname in rs.syms:
+                depends = False
+                for beta in pts:
+                    b2 = dict(beta)
+                    b2[sname] = N.add(beta[sname], N.V("real", N.mpf("0.6180339887498949"), 0))
+                    try:
+                        v1, v2 = rs.eval(beta), rs.eval(b2)
+                    except OutOfDomain:
+                        continue
+                    d = abs(v1.as_mp() - v2.as_mp())
+                    if d > N.mpf("1e-35") * max(abs(v1.as_mp()), abs(v2.as_mp()), N.mpf("1e-300")):
+                        depends = True
+                        break
+                if not depends:
+                    raise OutOfDomain("symbol cancels identically")
 
 
 class Discard(Exception):
